@@ -196,12 +196,21 @@ FlowLines == <<
   Ln("skip", <<>>), Ln("stop", <<>>)
 >>
 
-MCLineSeq == IF "flow" \in Slice THEN FlowLines
+\* three background commands alive at once (the generators above stop at two): what `wait name` takes out of the middle of
+\* the list, and what a bare `wait` then reports, in start order
+Bg3Lines == <<
+  Ln("exec", <<Lit("hecho"), Lit("hello"), Lit("&n1&")>>), Ln("exec", <<Lit("hecho"), Lit("hi"), Lit("&")>>),
+  Not(Ln("exec", <<Lit("hfail"), Lit("&n2&")>>)), Ln("wait", <<Lit("n1")>>), Ln("wait", <<Lit("n2")>>), Ln("wait", <<>>),
+  Ln("cpause", <<>>), Ln("kill", <<Lit("n1")>>)
+>>
+MaxBg == IF "bg3" \in Slice THEN 3 ELSE 2
+
+MCLineSeq == IF "bg3" \in Slice THEN Bg3Lines ELSE IF "flow" \in Slice THEN FlowLines
              ELSE (IF "fg" \in Slice THEN FgLines ELSE <<>>) \o (IF "bg" \in Slice THEN BgLines ELSE FgOnly)
 
-\* at most two background commands at a time (bound of the model, not of the language)
+\* at most two background commands at a time (three in the slice made for it; bound of the model, not of the language)
 MCNext == \E i \in 1..Len(LineSeq) :
-             /\ IF Len(bg) >= 2 /\ LineSeq[i].cmd = "exec" /\ Len(LineSeq[i].args) > 0
+             /\ IF Len(bg) >= MaxBg /\ LineSeq[i].cmd = "exec" /\ Len(LineSeq[i].args) > 0
                 THEN LineSeq[i].args[Len(LineSeq[i].args)].s \notin BgSpecs ELSE TRUE
              /\ Step(i)
 
